@@ -639,7 +639,9 @@ impl FatVolume {
                 self.iterate_fat16(dir_info, fat16_info, block_cache, |de, odde| {
                     if let Some((start, this_seqno, csum, buffer)) = odde.lfn_contents() {
                         seq_state = seq_state.update(lfn_buffer, start, this_seqno, csum, buffer);
-                    } else if let SeqState::Complete { csum } = seq_state {
+                    } else if let SeqState::Complete { csum } =
+                        core::mem::replace(&mut seq_state, SeqState::Waiting)
+                    {
                         if csum == de.name.csum() {
                             // Checksum is good, and all the pieces are there
                             func(de, Some(lfn_buffer.as_str()))
@@ -656,7 +658,9 @@ impl FatVolume {
                 self.iterate_fat32(dir_info, fat32_info, block_cache, |de, odde| {
                     if let Some((start, this_seqno, csum, buffer)) = odde.lfn_contents() {
                         seq_state = seq_state.update(lfn_buffer, start, this_seqno, csum, buffer);
-                    } else if let SeqState::Complete { csum } = seq_state {
+                    } else if let SeqState::Complete { csum } =
+                        core::mem::replace(&mut seq_state, SeqState::Waiting)
+                    {
                         if csum == de.name.csum() {
                             // Checksum is good, and all the pieces are there
                             func(de, Some(lfn_buffer.as_str()))
